@@ -6,7 +6,7 @@ From DG Require Import Base.Util Base.Sexp Base.Reach Model.Graph Model.Walk.
 
 Definition prune_dep (d : dep) : dep :=
   {| d_text := d_text d; d_filelike := d_filelike d; d_code := d_code d; d_type := RNone;
-     d_dyn := d_dyn d; d_deno_types := false |}.
+     d_dyn := d_dyn d; d_deno_types := false; d_attr := d_attr d |}.
 
 Definition prune_module (m : module) : module :=
   match m_kind m with
